@@ -67,3 +67,9 @@ Definition pcase_status (c : pcase) : N :=
        end) obs 0.
 
 Definition statuses (l : list pcase) : list N := map pcase_status l.
+
+(* header cases: (expected schema, protocol, stream bytes, did the implementation accept it?) *)
+Definition hcase := (list N * protocol * list N * bool)%type.
+Definition hcase_ok (c : hcase) : bool :=
+  let '(schema, p, l, accepted) := c in
+  Bool.eqb (match dec_protocol schema p l with POk _ => true | _ => false end) accepted.
